@@ -150,6 +150,28 @@ def _use_set(prog, rep):
             args = [prog.simp(a, body) for a in s.call_args(b)]
             for a in args:
                 srcs = _indent_sources(s, a)
+                if srcs and cal.name == "str::len":
+                    # EMPTY idiom `indent.len() == 0`: the length may only be compared with 0
+                    n += 1
+                    lt = ("call", "str::len", (a,))
+                    bad = False
+                    for b2 in sorted(body.cfg.reach):
+                        t2 = body.blocks[b2]["term"]
+                        terms = []
+                        if t2["k"] == "switch":
+                            terms.append(prog.simp(s.switch_value(b2), body))
+                        elif t2["k"] == "call":
+                            terms.extend(prog.simp(x, body) for x in s.call_args(b2))
+                        for i2, st2 in enumerate(body.blocks[b2]["stmts"]):
+                            if st2["k"] == "assign" and body.place_name(st2["place"]):
+                                terms.append(prog.simp(s.rvalue(st2["rv"], b2, i2), body))
+                        for tt in terms:
+                            if _len_misused(tt, lt):
+                                bad = True
+                    r.check(not bad, "use:len-eq-0", "an indent's length is only compared with 0 (EMPTY idiom)", "len() == 0",
+                            "the byte length of the indent %s is used for more than an emptiness test: what follows the indent would "
+                            "depend on its characters" % D(a), site=t["span"])
+                    continue
                 if srcs:
                     n += 1
                     r.check(cal.name in ALLOWED, "use:%s" % cal.name, "indent strings only flow into display_width / is_empty / to_owned",
@@ -164,6 +186,16 @@ def _use_set(prog, rep):
                         r.check(False, "use:compare", "", "", "an indent string takes part in %s" % D(v), site=st["span"])
     if n < 4:
         rep.violation("C08.R3", "crate", "floor", "crate", "only %d uses of the indent fields found on the wrap path (floor 4)" % n)
+
+
+def _len_misused(t, lt, parent=None):
+    if not isinstance(t, tuple) or not t:
+        return False
+    if t == lt:
+        if parent is not None and parent[0] == "bin" and parent[1] in ("Eq", "Ne", "Gt", "Lt", "Ge", "Le") and ("int", 0) in (parent[2], parent[3]):
+            return False
+        return parent is not None
+    return any(_len_misused(x, lt, t) for x in t if isinstance(x, tuple))
 
 
 def _indent_sources(s, a, seen=None):
